@@ -313,7 +313,9 @@ impl Response {
                 let col_count = u32::from_le_bytes(payload[0..4].try_into().unwrap()) as usize;
                 offset += 4;
 
-                let mut columns = Vec::with_capacity(col_count);
+                // Counts come from the wire: every string needs at least its 4-byte length
+                // prefix, so never reserve more entries than the payload can hold.
+                let mut columns = Vec::with_capacity(col_count.min(payload.len() / 4));
 
                 for _ in 0..col_count {
                     let (col, len) = read_string_with_len(&payload[offset..])?;
@@ -328,9 +330,10 @@ impl Response {
                     u32::from_le_bytes(payload[offset..offset + 4].try_into().unwrap()) as usize;
                 offset += 4;
 
-                let mut data = Vec::with_capacity(row_count);
+                let max_cells = (payload.len() - offset) / 4;
+                let mut data = Vec::with_capacity(row_count.min(max_cells));
                 for _ in 0..row_count {
-                    let mut row = Vec::with_capacity(col_count);
+                    let mut row = Vec::with_capacity(col_count.min(max_cells));
                     for _ in 0..col_count {
                         let (value, len) = read_string_with_len(&payload[offset..])?;
                         row.push(value);
